@@ -1473,7 +1473,8 @@ class Distributions(object):
             # rounded by interpolation)
             IM = IM.astype(float)
         if self.weights is not None:
-            IM = self.weights * IM  # (not *=)
+            # (zero-weight pixels are excluded, whatever they contain)
+            IM = self.weights * np.where(self.weights != 0, IM, 0)  # (not *=)
 
         if self.fold:
             Q = np.zeros((self.Qheight, self.Qwidth))
